@@ -29,10 +29,19 @@ inductive Eff where
   | exit
 deriving DecidableEq, Repr
 
+/-- what a handler call produces: the new handler-visible state, whether it called `app.exit`, and
+    the numeric argument it left in `key_processor.arg` (`event.append_to_arg_count`; `none` = the
+    handler did not touch it) -/
+structure HOut (σ : Type) where
+  ed : σ
+  eff : Eff
+  arg : Option Nat
+
 structure Tbl (σ : Type) where
   exact : σ → List Key → Bool
   longer : σ → List Key → Bool
-  handler : σ → List Key → σ × Eff
+  /-- `handler state event.arg key_sequence` (`event._arg`: `none` = no argument typed) -/
+  handler : σ → Option Nat → List Key → HOut σ
   /-- `Application.reset()` / `_pre_run`: what a new prompt starts from -/
   reset : σ → σ
 
@@ -60,14 +69,22 @@ structure KP (σ : Type) where
   crashed : Bool              -- `app.exit()` raised "Return value already set"
   trace : List Disp           -- everything dispatched to this application, in order
   ed : σ
+  arg : Option Nat            -- KeyProcessor.arg (the digits typed with escape-digit so far)
+  prev : List Key             -- KeyProcessor._previous_key_sequence (→ `is_repeat`)
+
+/-- the key processor after `reset()`, with the given queue -/
+def KP.fresh (q : List QK) (ed : σ) : KP σ := ⟨q, [], false, false, [], ed, none, []⟩
 
 variable {σ : Type}
 
 /-- `_call_handler` with the handler's effect on the application -/
 def callHandler (T : Tbl σ) (p : KP σ) (ks : List Key) : KP σ :=
-  let (ed', eff) := T.handler p.ed ks
-  let p' := { p with ed := ed', trace := p.trace ++ [.call ks (eff == .exit)] }
-  match eff with
+  -- arg = self.arg; self.arg = None; event = KeyPressEvent(arg=arg, key_sequence=ks, …)
+  let o := T.handler p.ed p.arg ks
+  -- … self._previous_key_sequence = key_sequence
+  let p' := { p with ed := o.ed, arg := o.arg, prev := ks,
+                     trace := p.trace ++ [.call ks (o.eff == .exit)] }
+  match o.eff with
   | .stay => p'
   | .exit => if p.done then { p' with crashed := true } else { p' with done := true }
 
@@ -136,7 +153,16 @@ def notEmpty (p : KP σ) : Bool :=
 /-- `_process_cpr_response`: a CPR response is dispatched to its binding directly; it does not
     go through the key buffer -/
 def processCpr (T : Tbl σ) (p : KP σ) : KP σ :=
-  if T.exact p.ed [.cpr] then callHandler T p [.cpr] else p
+  if T.exact p.ed [.cpr] then
+    -- matches[-1].call(KeyPressEvent(arg=None, key_sequence=[cpr], previous_key_sequence=…,
+    -- is_repeat=False)): `self.arg`, `_previous_key_sequence`, macros are not touched
+    let o := T.handler p.ed none [.cpr]
+    let p' := { p with ed := o.ed, arg := (match o.arg with | some a => some a | none => p.arg),
+                       trace := p.trace ++ [.call [.cpr] (o.eff == .exit)] }
+    match o.eff with
+    | .stay => p'
+    | .exit => if p.done then { p' with crashed := true } else { p' with done := true }
+  else p
 
 /-- `if is_cpr: self._process_cpr_response(key_press) else: self._process_coroutine.send(key_press)` -/
 def deliver (T : Tbl σ) (p : KP σ) (k : QK) : KP σ :=
@@ -171,7 +197,7 @@ structure St (σ : Type) where
   results : List (List Disp × σ)  -- dispatch trace and final handler state of the finished applications
 
 def St.init (ed : σ) : St σ :=
-  { pipe := [], typeahead := [], kp := ⟨[], [], false, false, [], ed⟩, running := false, results := [] }
+  { pipe := [], typeahead := [], kp := KP.fresh [] ed, running := false, results := [] }
 
 inductive Ev where
   | write (c : List Key)
@@ -189,7 +215,7 @@ def step (T : Tbl σ) (s : St σ) : Ev → St σ
       typeahead := []
       running := true
       -- reset(): fresh key buffer and queue; then the type-ahead is fed and processed
-      kp := processKeys T ⟨s.typeahead, [], false, false, [], T.reset s.kp.ed⟩ }
+      kp := processKeys T (KP.fresh s.typeahead (T.reset s.kp.ed)) }
   | .read n =>
     if !s.running then s else
     { s with
@@ -239,13 +265,15 @@ def insertOnly (k : Nat) : Bool :=
 def known1 (k : Nat) : Bool :=
   k < base || (base ≤ k && k ≤ base + 12) || k == kCtrlAt
 
+def isDigit (k : Nat) : Bool := 48 ≤ k && k ≤ 57
+
 def exact (s : S) : List Key → Bool
   | [.accept] => true
   | [.abort] => true
   | [.cpr] => true
   | [.other k] => known1 k && !(s.sel && insertOnly k)
   | [.other a, .accept] => a == kEsc && !s.sel          -- escape enter: accept-line (insert_mode)
-  | [.other a, .other b] => a == kCtrlX && b == kCtrlX  -- c-x c-x
+  | [.other a, .other b] => (a == kCtrlX && b == kCtrlX) || (a == kEsc && isDigit b)  -- c-x c-x, escape digit
   | _ => false
 
 def longer (s : S) : List Key → Bool
@@ -253,19 +281,43 @@ def longer (s : S) : List Key → Bool
   | [.abort] => s.sel                                   -- c-c > / c-c < (has_selection)
   | _ => false
 
-def handler (s : S) : List Key → S × Eff
-  | [.accept] => (s, .exit)
-  | [.abort] => (s, .exit)
-  | [.other _, .accept] => (s, .exit)
-  | [.other a, .other _] =>
-    if a == kCtrlX then
-      ({ s with e := { s.e with cur := if s.e.cur = s.e.text.length then 0 else s.e.text.length } }, .stay)
-    else (s, .stay)
+/-- `event.arg`: the repetition count of a command -/
+def count (a : Option Nat) : Nat :=
+  match a with
+  | none => 1
+  | some n => if n ≥ 1000000 then 1 else n
+
+/-- `event.append_to_arg_count(data)` for a digit -/
+def appendArg (a : Option Nat) (k : Nat) : Option Nat :=
+  match a with
+  | none => some (k - 48)
+  | some n => some (n * 10 + (k - 48))
+
+def rep (e : E) (k : Nat) : Nat → E
+  | 0 => e
+  | n + 1 => rep (Ed.key e k) k n
+
+/-- the named commands of the scripts with their repetition count -/
+def keyN (e : E) (k : Nat) (n : Nat) : E :=
+  if k < base ∨ k = kBackspace ∨ k = kDelete ∨ k = kLeft ∨ k = kRight ∨ k = kCtrlB ∨ k = kCtrlF then
+    rep e k n
+  else Ed.key e k
+
+def handler (s : S) (a : Option Nat) : List Key → HOut S
+  | [.accept] => ⟨s, .exit, none⟩
+  | [.abort] => ⟨s, .exit, none⟩
+  | [.other _, .accept] => ⟨s, .exit, none⟩
+  | [.other x, .other y] =>
+    if x == kCtrlX then
+      ⟨{ s with e := { s.e with cur := if s.e.cur = s.e.text.length then 0 else s.e.text.length } }, .stay, none⟩
+    else if x == kEsc && isDigit y then ⟨s, .stay, appendArg a y⟩      -- escape digit
+    else ⟨s, .stay, none⟩
   | [.other k] =>
-    if k == kCtrlAt then ({ s with sel := !s.e.text.isEmpty }, .stay)   -- `if buff.text: start_selection`
-    else if k == kEsc then (s, .stay)
-    else ({ s with e := Ed.key s.e k }, .stay)
-  | _ => (s, .stay)
+    if k == kCtrlAt then ⟨{ s with sel := !s.e.text.isEmpty }, .stay, none⟩   -- `if buff.text: start_selection`
+    else if k == kEsc then ⟨s, .stay, none⟩
+    else if isDigit k && a.isSome then ⟨s, .stay, appendArg a k⟩    -- digit while an argument is typed
+    else ⟨{ s with e := keyN s.e k (count a) }, .stay, none⟩
+  | _ => ⟨s, .stay, none⟩
 
 def tbl : Tbl S :=
   { exact := exact, longer := longer, handler := handler, reset := fun _ => ⟨⟨[], 0⟩, false⟩ }
